@@ -70,7 +70,7 @@ _MORE = {
     "C12": ("flatten_name_map (the renaming step every importer goes through) proved for key mappings of every length with None / string / list values: "
             "the result is, in mapping order, exactly one (standard key, source column) pair per string item and one unrenamed (column, column) pair per listed column in the mapped order "
             "(two nested loop invariants over a ghost offset function; its monotonicity by an induction whose step is an obligation). "
-            "validate_node_name_map proved: acceptance implies every required key mapped to a non-None value, position mapped or segmentation given, every mapped (also every listed) column present in the source under exactly that name; only ValueError is raised. "
+            "validate_node_name_map proved: acceptance implies every required key mapped to a non-None value, position mapped or segmentation given, every mapped (also every listed) column present in the source under exactly that name; only ValueError is raised; validate_edge_name_map: the same column clause for edge properties. "
             "Everything else (pandas/geff loading, id renumbering, validation, graph construction) is a BOUNDED STAND-IN, DataFrame/CSV path only: exhaustive small tables incl. malformed variants "
             "(duplicate id, unknown parent, self link, missing column, mapping to a column that exists only in another letter case) vs the source table. GEFF store path not covered.",
             "contract-based deductive verification (nested loop invariants, ghost offset function) of the renaming and mapping-validation steps + bounded stand-in for the pandas path"),
